@@ -724,6 +724,29 @@ def gen():
                   "true" if orders.pop() == "BFS" else "false",
                   new_root["edge_resets"], new_root["face_resets"], new_root["cell_resets"]))
 
+    # ================= __call__ of the two base classes: runs compute() (unconditionally) and returns the object
+    src_b, tree_b = T.load(BASE)
+    runs = []
+    for cls in ("SpanningTree", "SpanningForest"):
+        fn = T.find_def(tree_b, cls + ".__call__", BASE)
+        parts.append((cls + ".__call__", T.sha(src_b, fn)))
+        cb = T.body_nodoc(fn)
+        expect(BASE, fn, len(cb) == 2 and U(cb[1]) == "return self", "__call__ does not end with `return self`")
+        if U(cb[0]) == "self.compute()":
+            runs.append(True)
+        elif isinstance(cb[0], ast.If) and len(cb[0].body) == 1 and U(cb[0].body[0]) == "self.compute()" and not cb[0].orelse:
+            runs.append(False)      # compute() only under a condition: a second call may do nothing
+        else:
+            T.fail(BASE, fn, "__call__ is not `self.compute(); return self`")
+    for cls in ("EdgeSpanningTree", "EdgeMinimalSpanningTree", "FaceSpanningTree", "CellSpanningTree",
+                "EdgeSpanningForest", "FaceSpanningForest", "CellSpanningForest"):
+        rel = EDGE if cls.startswith("Edge") else (FACE if cls.startswith("Face") else CELL)
+        s3, t3 = T.load(rel)
+        cdef = T.find_def(t3, cls, rel)
+        expect(rel, cdef, not any(isinstance(n, ast.FunctionDef) and n.name == "__call__" for n in cdef.body),
+               "%s overrides __call__" % cls)
+    out.append("Definition call_runs_compute : bool := %s.\n" % ("true" if all(runs) else "false"))
+
     # ================= default values of the constructors' optional parameters: None / immutable constants only
     # (a mutable literal such as set() or [] would be one object shared by every call that omits the argument)
     def immutable(d):
